@@ -29,7 +29,35 @@ DEFAULTS = {"lifting": 0, "eqtrans": 0, "testdualinf": 0, "ratfac": 1, "acceptcy
 SPACE = dict([(b, [0, 1]) for b in BOOLS] + [("simplifier", [0, 1, 3]), ("scaler", [0, 1, 2, 3, 4, 5, 6]), ("sync", ["auto", "manual"])])
 SETFILES = {"exact": "settings/exact.set", "pure": "settings/exact-pure-boosting.set"}
 REFLIMIT = 12          # for settings with rational reconstruction and factorization both off
-TIMELIMIT = 60         # safety net (seconds) for a single tiny LP; a must-decide setting that hits it is reported
+TIMELIMIT = 8          # safety net (seconds) for a single tiny LP (they take milliseconds); a must-decide setting that hits it is reported
+
+
+# --------------------------------------------------------------------------------------
+# the verdict automaton of RatGateModel.v is a hand-written model of the control flow of these three functions; their
+# oracles are internal procedures, so the model cannot be driven differentially.  What can be checked on every run is that
+# the text the model was written for is still the text in the tree (comments and white space ignored).
+# --------------------------------------------------------------------------------------
+VERDICT_SOURCE = {"_optimizeRational": "8dffe041ea332754", "_performUnboundedIRStable": "6e3865d9b9b8d845",
+                  "_performFeasIRStable": "0c875e674ca73b05"}
+
+
+def verdict_source_hashes():
+    import hashlib
+    import re
+    src = open(os.path.join(vlib.REPO, "src", "soplex", "solverational.hpp")).read()
+    out = {}
+    for name in VERDICT_SOURCE:
+        m = re.search(r"void SoPlexBase<R>::%s\(" % name, src)
+        if not m:
+            out[name] = "missing"
+            continue
+        end = src.find("\ntemplate <class R>", m.start())
+        t = src[m.start():end if end > 0 else len(src)]
+        t = re.sub(r"/\*.*?\*/", "", t, flags=re.S)
+        t = re.sub(r"//[^\n]*", "", t)
+        t = re.sub(r"\s+", "", t)
+        out[name] = hashlib.sha256(t.encode()).hexdigest()[:16]
+    return out
 
 
 # --------------------------------------------------------------------------------------
@@ -155,7 +183,7 @@ def finish_cfg(cfg):
 
 def cfg_tags(cfg):
     t = [k for k in ("lifting", "eqtrans", "testdualinf", "forcebasic", "ratfacjump", "recovery_mechanism") if cfg.get(k, 0) == 1]
-    t += ["no-" + k for k in ("ratrec", "ratfac", "precision_boosting") if cfg.get(k, 1) == 0]
+    t += ["no-" + k for k in ("ratrec", "ratfac", "precision_boosting", "iterative_refinement") if cfg.get(k, 1) == 0]
     if "setfile" in cfg:
         t.append("set-" + cfg["setfile"])
     if cfg.get("sync", "auto") != "auto":
@@ -238,18 +266,40 @@ def kernel_case(r, p, tag):
     return "KERN %s %s" % (tag, " ".join("%s=%s" % (k, v) for k, v in sorted(a.items())))
 
 
-def run_model(model, text, tag, ck):
+def run_model(model, text, tag, ck, nproc=8):
+    """run an extracted model/checker runner on the case text; LP blocks are independent, so the text is split into chunks
+    that run concurrently (the extracted arithmetic on inductive integers is slow on large rationals)"""
+    from concurrent.futures import ThreadPoolExecutor
     d = os.path.join(vlib.BUILD, "run")
     os.makedirs(d, exist_ok=True)
-    f = os.path.join(d, "%s-%s.%d.q" % (ck.pid, tag, os.getpid()))
-    with open(f, "w") as fh:
-        fh.write(text)
-    rc, out, err = vlib.sh([model, f], timeout=3000)
-    if not os.environ.get("VERIF_KEEP"):
-        os.remove(f)
-    if rc != 0:
-        ck.violation("model-runner-crash:" + tag, "extracted model runner failed: " + err[-300:], {"kind": "model"}, no_input=True)
-    return lpgen.blocks(out)
+    blocks, cur = [], []
+    for l in text.splitlines():
+        if l.startswith("LP ") and cur:
+            blocks.append(cur)
+            cur = []
+        cur.append(l)
+    if cur:
+        blocks.append(cur)
+    chunks = [[] for _ in range(nproc)]
+    for i, b in enumerate(blocks):
+        chunks[i % nproc].append("\n".join(b))
+    chunks = [c for c in chunks if c]
+
+    def one(ic):
+        i, c = ic
+        f = os.path.join(d, "%s-%s-%d.%d.q" % (ck.pid, tag, i, os.getpid()))
+        with open(f, "w") as fh:
+            fh.write("\n".join(c) + "\n")
+        r = vlib.sh([model, f], timeout=6000)
+        if not os.environ.get("VERIF_KEEP"):
+            os.remove(f)
+        return r
+    with ThreadPoolExecutor(max_workers=nproc) as ex:
+        res = list(ex.map(one, enumerate(chunks)))
+    for rc, out, err in res:
+        if rc != 0:
+            ck.violation("model-runner-crash:" + tag, "extracted model runner failed: " + err[-300:], {"kind": "model"}, no_input=True)
+    return lpgen.blocks("".join(r[1] for r in res))
 
 
 def kernel_part(ck, exe, model, nlp, per_lp, nmax):
@@ -305,6 +355,61 @@ def kernel_part(ck, exe, model, nlp, per_lp, nmax):
     ck.count("kernel-cases-all-zero", nz)
 
 
+def kernel_from_answers(ck, exe, model, answers, limit):
+    """kernel cases built from answers the exact solver returned as OPTIMAL (all four violations are zero there) and from
+    single-entry perturbations of them (one status, one vector entry): the cases next to the accept/reject boundary"""
+    r = ck.rng
+    text, meta = "", {}
+    for k, (p, o) in enumerate(answers[:limit]):
+        x, sl, y, d = vq(o["x"]), vq(o["s"]), vq(o["y"]), vq(o["d"])
+        cst, rst = o["bcols"].strip(","), o["brows"].strip(",")
+        text += p.text("a%d" % k) + "\n"
+        variants = [("exact", cst, rst, x, sl, y, d)]
+        for _ in range(5):
+            c2, r2, x2, s2, y2, d2 = cst, rst, list(x), list(sl), list(y), list(d)
+            w = r.randrange(6)
+            if w == 0 and p.n:
+                j = r.randrange(p.n)
+                c2 = c2[:j] + r.choice("ULBZF") + c2[j + 1:]
+            elif w == 1 and p.m:
+                i = r.randrange(p.m)
+                r2 = r2[:i] + r.choice("ULBZF") + r2[i + 1:]
+            elif w == 2 and p.n:
+                x2[r.randrange(p.n)] += r.choice([Fraction(1, 10**9), Fraction(-1, 3), Fraction(1)])
+            elif w == 3 and p.m:
+                s2[r.randrange(p.m)] += r.choice([Fraction(1, 10**9), Fraction(-1, 3), Fraction(-1, 10**9)])
+            elif w == 4 and p.m:
+                y2[r.randrange(p.m)] += r.choice([Fraction(1, 10**9), Fraction(-1, 3), Fraction(-1, 10**9)])
+            elif p.n:
+                d2[r.randrange(p.n)] += r.choice([Fraction(1, 10**9), Fraction(-1, 3), Fraction(-1, 10**9)])
+            variants.append(("perturbed", c2, r2, x2, s2, y2, d2))
+        for c, (kind, c2, r2, x2, s2, y2, d2) in enumerate(variants):
+            tag = "a%d.%d" % (k, c)
+            line = "KERN %s cst=%s rst=%s x=%s s=%s y=%s d=%s minir=-1 nfail=0 st=0 si=0" % (tag, c2, r2, vtxt(x2), vtxt(s2), vtxt(y2), vtxt(d2))
+            meta[tag] = (kind, p, line)
+            text += line + "\n"
+    if not text:
+        return
+    rc, out, err = lpgen.run_harness(exe, text, ck.pid + "-kern2")
+    H = lpgen.blocks(out)
+    M = run_model(model, text, "kern2", ck)
+    hl = {l.split()[1]: l for b in H.values() for l in b if l.startswith("KERN ")}
+    ml = {l.split()[1]: l for b in M.values() for l in b if l.startswith("KERN ")}
+    for tag, (kind, p, line) in meta.items():
+        a, b = hl.get(tag), ml.get(tag)
+        ck.evaluated(("kern", line, p.key()), nontrivial=True)
+        ck.count("kernel-cases-from-answers:" + kind)
+        if a is not None and "bv=0 sv=0 rv=0 dv=0 over=1 pf=1 df=1" in a:
+            ck.count("kernel-cases-from-answers:accepted:" + kind)
+        if a != b:
+            fa, fb = lpgen.parse_kv(a) if a else {}, lpgen.parse_kv(b) if b else {}
+            diff = sorted(k2 for k2 in set(fa) | set(fb) if fa.get(k2) != fb.get(k2) and not k2.startswith("_"))
+            ck.violation("kernel-mismatch:" + "+".join(diff)[:60],
+                         "the compiled kernels and the model of RatGateModel.v disagree on %s for case %s (built from a returned OPTIMAL answer)" % (diff, tag),
+                         {"lp": p.text("replay"), "case": line, "implementation": a, "model": b,
+                          "correspondence": "harness/C03.cpp KERN vs extract/C03"}, no_input=True)
+
+
 # --------------------------------------------------------------------------------------
 # end to end
 # --------------------------------------------------------------------------------------
@@ -329,6 +434,27 @@ def vq(s):
     return [Fraction(t) for t in s.split(",") if t != ""]
 
 
+def run_parallel(exe, text, tag, nproc=6):
+    """split the case text at LP blocks into nproc chunks and run the harness on them concurrently"""
+    from concurrent.futures import ThreadPoolExecutor
+    blocks, cur = [], []
+    for l in text.splitlines():
+        if l.startswith("LP ") and cur:
+            blocks.append(cur)
+            cur = []
+        cur.append(l)
+    if cur:
+        blocks.append(cur)
+    chunks = [[] for _ in range(nproc)]
+    for i, b in enumerate(blocks):
+        chunks[i % nproc].append("\n".join(b))
+    chunks = [c for c in chunks if c]
+    with ThreadPoolExecutor(max_workers=nproc) as ex:
+        res = list(ex.map(lambda ic: lpgen.run_harness(exe, "\n".join(ic[1]) + "\n", "%s-%d" % (tag, ic[0]), timeout=7000), enumerate(chunks)))
+    rc = max([abs(r[0]) for r in res] + [0])
+    return rc, "".join(r[1] for r in res), "".join(r[2][-300:] for r in res)
+
+
 def e2e(ck, exe, cert, model, jobs):
     """jobs: list of (LP, [cfg, ...]); runs everything, asks the proved checkers, judges"""
     obs = {k: {} for k in range(len(jobs))}
@@ -346,7 +472,7 @@ def e2e(ck, exe, cert, model, jobs):
                 text += "SOLVE e%d.%d sync=%s %s\n" % (k, c, sync, cfg_line(f))
         if not text:
             break
-        rc, out, err = lpgen.run_harness(exe, text, ck.pid + "-e2e", timeout=7000)
+        rc, out, err = run_parallel(exe, text, ck.pid + "-e2e")
         B = lpgen.blocks(out)
         for k in range(len(jobs)):
             for tag, rec in parse_solve(B.get("e%d" % k, [])).items():
@@ -446,6 +572,8 @@ def e2e(ck, exe, cert, model, jobs):
                                  rep({"theorem": "Cert_Proofs.opt_cert_sound / RatGate_Proofs.gate_zero_is_optimal"}))
                 else:
                     certified.setdefault("optimal", []).append(c)
+                    if "brows" in o and not altered:
+                        ck.opt_answers.append((p, o))
                     if ans.get("%d.all" % c) != "true":
                         ck.violation("exact-optimal-slack-redcost:%s%s" % (tags, suffix), "OPTIMAL: (x, y) is an exact certificate but slacks != A x or reduced costs != c - A^T y or a sign "
                                      "condition fails on the returned s, d (check_opt_tol with zero tolerances rejects) under %s" % cfg, rep())
@@ -456,6 +584,10 @@ def e2e(ck, exe, cert, model, jobs):
                             if mo is not None and Fraction(mo) == v and p.offset != 0:
                                 ck.violation("objective-offset-omitted", "objValueRational() = %s but c.x + offset = %s: the objective offset %s is missing (the model of "
                                              "'sol._objVal = sol._primal * maxObj' gives %s; theorem C03_objective_offset_refuted)" % (v, vv, p.offset, mo), rep({"model_objval": mo}))
+                            elif cfg.get("iterative_refinement", 1) == 0 or cfg.get("setfile") == "pure":
+                                ck.violation("objective-value-not-computed:pure-boosting", "objValueRational() = %s (zero or a stale value of an earlier, inexact iterate) but c.x + offset "
+                                             "= %s with iterative refinement off (%s): _solveRealForRationalStable / ...BoostedStable return from inside their loop when the "
+                                             "tolerances are reached, before sol._objVal is set" % (v, vv, cfg), rep())
                             else:
                                 ck.violation("objective-value-wrong:%s%s" % (tags, suffix), "objValueRational() = %s but c.x + offset = %s under %s" % (v, vv, cfg), rep())
                     gt = gate.get(("GATE", str(c)))
@@ -513,14 +645,39 @@ def first_diff(a, b):
 
 
 def load_corpus():
+    """corpus/C03/*.lp: LP block (harness format) + lines 'CFG k=v ...' (one configuration each)"""
+    d = os.path.join(vlib.ROOT, "corpus", "C03")
     out = []
-    for (p, cfgs) in lpgen.load_corpus("C03"):
-        out.append(p)
+    if not os.path.isdir(d):
+        return out
+    for f in sorted(os.listdir(d)):
+        if not f.endswith(".lp"):
+            continue
+        cols, rows, cfgs, head = [], [], [], None
+        for l in open(os.path.join(d, f)):
+            t = l.split()
+            if not t or t[0].startswith("#"):
+                continue
+            if t[0] == "LP":
+                head = t
+            elif t[0] == "C":
+                cols.append((Fraction(t[1]), lpgen.fr(t[2]), lpgen.fr(t[3])))
+            elif t[0] == "R":
+                rows.append((lpgen.fr(t[1]), {int(e.split(":")[0]): Fraction(e.split(":")[1]) for e in t[3:]}, lpgen.fr(t[2])))
+            elif t[0] == "CFG":
+                cfg = {}
+                for kv in t[1:]:
+                    k, v = kv.split("=")
+                    cfg[k] = int(v) if v.lstrip("-").isdigit() else v
+                cfgs.append(cfg)
+        if head:
+            out.append((lpgen.LP(head[2] == "max", Fraction(head[3]), cols, rows, "corpus:" + f[:-3]), cfgs))
     return out
 
 
 def main():
     ck = vlib.Check("C03", "proof")
+    ck.opt_answers = []
     ck.prove()
     exe = vlib.build_harness("C03")
     model = vlib.build_model("C03")
@@ -550,6 +707,15 @@ def main():
             p = lpgen.LP(head[2] == "max", Fraction(head[3]), cols, rows, "replay")
             e2e(ck, exe, cert, model, [(p, [rp["config"]])])
         ck.finish()
+    # ---- (o) the source the verdict automaton models
+    hs = verdict_source_hashes()
+    ck.cov["verdict_logic_source"] = hs
+    for name, h in hs.items():
+        if h != VERDICT_SOURCE[name]:
+            ck.violation("verdict-logic-source-changed:" + name,
+                         "the code of %s differs from the text the verdict automaton of coq/RatGateModel.v was written for (hash %s, expected %s): theorem "
+                         "C03_verdict_automaton_sound no longer speaks about this tree until the model is re-read against it" % (name, h, VERDICT_SOURCE[name]),
+                         {"kind": "correspondence", "function": name, "theorem": "C03_verdict_automaton_sound"}, no_input=True)
     # ---- (i) kernels
     if quick:
         kernel_part(ck, exe, model, nlp=60, per_lp=8, nmax=7)
@@ -557,19 +723,23 @@ def main():
         kernel_part(ck, exe, model, nlp=500, per_lp=12, nmax=12)
     # ---- (ii) end to end
     nmax = 10 if quick else 25
-    nlp = 34 if quick else 260
-    lps = load_corpus() + [gen_rational_lp(r, nmax) for _ in range(nlp)]
-    # the refutation witness of Properties_C03.v (objective offset)
-    lps.insert(0, lpgen.LP(False, Fraction(100), [(Fraction(1), Fraction(0), None), (Fraction(2), Fraction(0), None)],
-                           [(Fraction(2), {0: Fraction(1), 1: Fraction(1)}, None)], "offset-witness"))
+    nlp = 70 if quick else 700
+    corpus = load_corpus()
+    lps = [c[0] for c in corpus] + [gen_rational_lp(r, nmax) for _ in range(nlp)]
+    # the refutation witness of Properties_C03.v (objective offset) goes first
+    witness = lpgen.LP(False, Fraction(100), [(Fraction(1), Fraction(0), None), (Fraction(2), Fraction(0), None)],
+                       [(Fraction(2), {0: Fraction(1), 1: Fraction(1)}, None)], "offset-witness")
     arr = covering_array(r, SPACE)
     ck.count("covering-array-rows", len(arr))
     jobs = []
     ai = 0
     per = 2 if quick else 6
-    nrand = 1 if quick else 5
+    nrand = 3 if quick else 8
+    lps.insert(0, witness)
     for k, p in enumerate(lps):
         cfgs = [{}]                                           # default options, SYNCMODE_AUTO
+        if 0 < k <= len(corpus):
+            cfgs += corpus[k - 1][1]
         if k % 3 == 0:
             cfgs.append({"setfile": "exact"})
         if k % 3 == 1:
@@ -599,6 +769,22 @@ def main():
         k += 1
     ck.count("e2e-solves-planned", sum(len(c) for _, c in jobs))
     e2e(ck, exe, cert, model, jobs)
+    if not quick:
+        # all 2^13 settings of the exact-solver booleans on three tiny LPs (optimal / infeasible / unbounded, data 1/3, 1/10)
+        F = Fraction
+        tiny = [lpgen.LP(False, F(1, 2), [(F(1, 3), F(0), None), (F(2), F(0), F(7, 3))], [(F(2), {0: F(1), 1: F(1, 10)}, None), (None, {0: F(1, 3), 1: F(-1)}, F(5))], "tiny-optimal"),
+                lpgen.LP(True, F(0), [(F(1), F(0), F(1, 3)), (F(1), None, F(1, 10))], [(F(1), {0: F(1), 1: F(1)}, None)], "tiny-infeasible"),
+                lpgen.LP(True, F(0), [(F(1, 3), F(0), None), (F(-1), F(0), F(4))], [(None, {0: F(-1, 10), 1: F(1)}, F(7, 3))], "tiny-unbounded")]
+        alljobs = []
+        for p in tiny:
+            cfgs = []
+            for mask in range(1 << len(BOOLS)):
+                cfg = {b: (mask >> i) & 1 for i, b in enumerate(BOOLS)}
+                cfgs.append({a: b for a, b in cfg.items() if DEFAULTS.get(a) != b})
+            alljobs.append((p, cfgs))
+        ck.count("e2e-solves-planned", sum(len(c) for _, c in alljobs))
+        e2e(ck, exe, cert, model, alljobs)
+    kernel_from_answers(ck, exe, model, ck.opt_answers, 60 if quick else 600)
     ck.cov["rule"] = ("(i) kernel cases: an LP with rational data (fractions 1/3, 1/10, ..., zero bounds, all range types) + rational vectors x, s, y, d (on/off bounds, "
                       "consistent or perturbed) + basis status arrays (all six statuses) + optional overridden range-type arrays + tolerances / minIRRoundsRemaining / "
                       "numFailedRefinements / limits, compared exactly with the extracted model; (ii) end-to-end cases: (LP, setting) with LPs <= %dx%d from the "
